@@ -107,6 +107,12 @@ def width(shape):
 #  ['iops', t, v, code] `s op= seqs[v]`   ['ops', t, v, code] `s op seqs[v]` (code 3 = `<`)   ['un', t, code] -s / abs(s)
 #  (the last three: correspondence + oracle only, no theorem)
 # rows = list of flat integer rows (one array); B = buffer bytes (0 = the default 4 Mb)
+# Tractogram operations (T, U = tractogram numbers in creation order; k = key number, real key 'k<k>'):
+#  ['tnew', s|None, [[k, f]..], aslist]  Tractogram(seqs[s], data_per_point={k: seqs[f]})  (aslist: list(seqs[.]))
+#  ['tsl', T, a, b, c]  T[a:b:c]     ['tidx', T, [i..]]  T[[i..]]
+#  ['text', T, U]  T.extend(U) / T += U       ['tset', T, k, s, aslist]  T.data_per_point[k] = seqs[s]
+# every sequence a tractogram holds becomes a live sequence (streamlines first, then per-point data in
+# dict order), so all the sequence operations above apply to it
 
 def _o(v):
     return '_' if v is None else str(int(v))
@@ -156,6 +162,16 @@ def fmt_op(op, w):
         return f'{k}:{op[1]}:{op[2]}:{op[3]}'
     if k == 'un':
         return f'un:{op[1]}:{op[2]}'
+    if k == 'tnew':
+        return (f'tnew:{_o(op[1])}:' + (','.join(f'{a}={b}' for a, b in op[2]) or '-') + f':{int(op[3])}:{w}')
+    if k == 'tsl':
+        return f'tsl:{op[1]}:{_o(op[2])}:{_o(op[3])}:{_o(op[4])}'
+    if k == 'tidx':
+        return f'tidx:{op[1]}:' + (','.join(str(i) for i in op[2]) or '-')
+    if k == 'text':
+        return f'text:{op[1]}:{op[2]}:{w}'
+    if k == 'tset':
+        return f'tset:{op[1]}:{op[2]}:{op[3]}:{int(op[4])}:{w}'
     raise ValueError(op)
 
 
@@ -163,6 +179,7 @@ GROW = ('app', 'appc', 'ext', 'extg', 'exts')
 WRITE = ('set', 'sets', 'iop', 'iops')
 CREATE = ('new', 'view', 'copy', 'sl', 'idx', 'mask', 'op', 'cat', 'ops', 'un')
 TWO_SEQ = ('exts', 'iops', 'ops')
+TRACT = ('tnew', 'tsl', 'tidx', 'text', 'tset')
 
 
 def mk_hist(shape, ops, stream='random'):
@@ -171,9 +188,9 @@ def mk_hist(shape, ops, stream='random'):
     data = {'kind': 'hist', 'shape': list(shape), 'ops': ops}
     nlive, nontrivial = 0, False
     for op in ops:
-        if op[0] in CREATE:
-            nlive += 1
-        elif nlive >= 2 and (op[0] in GROW or op[0] in WRITE):
+        if op[0] in CREATE or op[0] in ('tnew', 'tsl', 'tidx', 'tset'):
+            nlive += 1 if op[0] != 'tnew' else 1 + len(op[2])
+        elif nlive >= 2 and (op[0] in GROW or op[0] in WRITE or op[0] == 'text'):
             nontrivial = True
     return Case(line, data, line if nontrivial else None, stream)
 
@@ -215,10 +232,72 @@ def show_state(obs):
     return '|'.join(str(c).replace(' ', '') + ':' + ('-' if not c else str(dt)) for c, dt, *_ in obs)
 
 
-def exec_op(seqs, op, shape, w):
+def key_name(k):
+    return f'k{k}'
+
+
+class TractRec:
+    """a real Tractogram plus which live-sequence numbers its sequences have"""
+
+    def __init__(self, obj, sl):
+        self.obj, self.sl, self.dpp = obj, sl, {}
+
+    def adopt_new_keys(self, seqs):
+        """per-point sequences stored under keys not seen before become live sequences (dict order)"""
+        for name, val in self.obj.data_per_point.store.items():
+            if name not in self.dpp:
+                self.dpp[name] = len(seqs)
+                seqs.append(val)
+
+    def show(self):
+        return (f'{self.sl};' + ','.join(f'{name[1:]}={self.dpp[name]}' for name in self.obj.data_per_point.store)
+                + f';{int(self.obj.data_per_point.n_rows)}')
+
+
+def exec_tract_op(seqs, tracts, op):
+    """Run one Tractogram op on the real code; the sequences the tractograms hold are appended to `seqs`
+    by the bookkeeping rule of the operation (NOT by object identity: a sequence stored as the same object
+    it was given is listed a second time, and the reference then sees it change with the other one)."""
+    from nibabel.streamlines.tractogram import Tractogram
+    k = op[0]
+    if k == 'tnew':
+        give = (lambda i: list(seqs[i])) if op[3] else (lambda i: seqs[i])
+        t = Tractogram(None if op[1] is None else give(op[1]),
+                       data_per_point={key_name(a): give(f) for a, f in op[2]})
+        rec = TractRec(t, len(seqs))
+        seqs.append(t.streamlines)
+        rec.adopt_new_keys(seqs)
+        tracts.append(rec)
+    elif k in ('tsl', 'tidx'):
+        T = tracts[op[1]]
+        t = T.obj[slice(op[2], op[3], op[4])] if k == 'tsl' else T.obj[[int(i) for i in op[2]]]
+        rec = TractRec(t, len(seqs))
+        seqs.append(t.streamlines)
+        rec.adopt_new_keys(seqs)
+        tracts.append(rec)
+    elif k == 'text':
+        T, U = tracts[op[1]], tracts[op[2]]
+        try:
+            T.obj.extend(U.obj)
+        finally:
+            T.adopt_new_keys(seqs)
+    elif k == 'tset':
+        T = tracts[op[1]]
+        name = key_name(op[2])
+        T.obj.data_per_point[name] = list(seqs[op[3]]) if op[4] else seqs[op[3]]
+        T.dpp[name] = len(seqs)
+        seqs.append(T.obj.data_per_point.store[name])
+    else:
+        raise ValueError(op)
+    return 'ok'
+
+
+def exec_op(seqs, op, shape, w, tracts=None):
     """Run one op on the real code.  Returns status string; may append to `seqs`."""
     from nibabel.streamlines.array_sequence import ArraySequence, concatenate
     k = op[0]
+    if k in TRACT:
+        return exec_tract_op(seqs, tracts, op)
     if k == 'new':
         seqs.append(ArraySequence(buffer_size=op[1] / 2 ** 20) if op[1] else ArraySequence())
     elif k == 'app':
@@ -289,18 +368,24 @@ def impl(case):
         return impl_tract(case)
     shape = tuple(d['shape'])
     w = width(shape)
-    seqs, chunks, steps = [], [], []
+    seqs, tracts, chunks, steps = [], [], [], []
     for op in d['ops']:
-        n0 = len(seqs)
+        n0, nt0 = len(seqs), len(tracts)
         try:
-            status = exec_op(seqs, op, shape, w)
+            status = exec_op(seqs, op, shape, w, tracts)
         except (IndexError, ValueError, StopIteration) as e:
             status = 'ERR:' + type(e).__name__
-            del seqs[n0:]
-        tgt = op[1] if isinstance(op[1], int) and op[0] != 'new' else -1
-        obs = [observe(s, w, i == tgt or i >= n0) for i, s in enumerate(seqs)]
+            if op[0] != 'text':              # Tractogram.extend may raise part-way: what was done stays done
+                del seqs[n0:]
+                del tracts[nt0:]
+        if op[0] in TRACT:
+            obs = [observe(s, w, True) for s in seqs]
+        else:
+            tgt = op[1] if isinstance(op[1], int) and op[0] != 'new' else -1
+            obs = [observe(s, w, i == tgt or i >= n0) for i, s in enumerate(seqs)]
         steps.append((status, obs))
-        chunks.append(status + '|' + show_state(obs))
+        chunks.append(status + '|' + show_state(obs) +
+                      (' @ ' + '/'.join(t.show() for t in tracts) if tracts else ''))
     case.extra = {'steps': steps}
     return ' ; '.join(chunks)
 
@@ -329,6 +414,7 @@ class RefWorld:
         self.nid = 0
         self.ngrp = 0
         self.maybe_parent = {}    # group -> group it MAY still be the same buffer as (owner growth)
+        self.tracts = []          # {'sl': live index, 'dpp': {key: live index} (dict order), 'n': n_rows}
 
     def fresh_grp(self):
         self.ngrp += 1
@@ -432,125 +518,233 @@ def oracle(case, out):
         return None
 
 
+def ref_step(W, op, w):
+    """One operation on the reference (plain lists of arrays + links).  Returns (expected status, cells
+    written through existing arrays or None, sequence operated on or None, sequences the operation may
+    grow); raises Invalid for an ill-formed operation."""
+    k = op[0]
+    if k in TRACT:
+        return ref_tract_step(W, op, w)
+    for t in ([op[1]] if k not in ('new', 'cat') else op[1] if k == 'cat' else []) + \
+             ([op[2]] if k in TWO_SEQ else []):
+        if not 0 <= t < len(W.live):
+            raise Invalid()
+    written = None
+    target = op[1] if k != 'new' and k != 'cat' else None
+    expect_status = 'ok'
+    written = None
+    target = op[1] if k != 'new' and k != 'cat' else None
+    if k == 'new':
+        W.live.append(Ref([], W.fresh_grp(), False, None))
+    elif k in ('app', 'appc'):
+        if any(len(r) != w for r in op[3]):
+            raise Invalid()
+        items = W.new_items([op[3]])
+        W.live[target].items += items
+        W.grown(target, (items, None, op[2]) if items else None)
+    elif k in ('ext', 'extg'):
+        items = W.new_items(op[3])
+        W.live[target].items += items
+        W.grown(target, (items, None, op[2]) if items else None, k == 'ext' and len(op[3]) > 0)
+    elif k == 'exts':
+        src = W.live[op[2]]
+        items = W.new_items(src.values())
+        W.live[target].items += items
+        W.grown(target, (items, None, src.dt) if items else None, len(src.items) > 0)
+    elif k == 'view':
+        s = W.live[target]
+        W.live.append(Ref([[i, [list(r) for r in v]] for i, v in s.items], s.grp, True, s.dt))
+    elif k == 'copy':
+        s = W.live[target]
+        W.live.append(Ref(W.new_items(s.values()), W.fresh_grp(), False, s.dt))
+    elif k in ('sl', 'idx', 'mask'):
+        s = W.live[target]
+        pos = ref_positions(len(s.items), op)
+        if isinstance(pos, str):
+            expect_status = pos
+        else:
+            W.live.append(Ref([[s.items[p][0], [list(r) for r in s.items[p][1]]] for p in pos],
+                              s.grp, True, s.dt))
+    elif k == 'get':
+        s = W.live[target]
+        if not -len(s.items) <= op[2] < len(s.items):
+            expect_status = 'ERR:IndexError'
+        else:
+            expect_status = 'get=' + str(s.items[op[2]][1]).replace(' ', '')
+    elif k == 'set':
+        s = W.live[target]
+        if not -len(s.items) <= op[2] < len(s.items):
+            expect_status = 'ERR:IndexError'
+        else:
+            ident, old = s.items[op[2]]
+            if len(old) != len(op[3]) or any(len(r) != w for r in op[3]):
+                raise Invalid()
+            written = {ident: [list(r) for r in op[3]]}
+    elif k == 'sets':
+        s = W.live[target]
+        pos = ref_positions(len(s.items), ['sl'] + op[1:5])
+        if isinstance(pos, str):
+            expect_status = pos
+        else:
+            if len(pos) != len(op[5]) or any(len(s.items[p][1]) != len(e) for p, e in zip(pos, op[5])):
+                raise Invalid()
+            written = {}
+            for p, e in zip(pos, op[5]):          # a list: later assignments win
+                written[s.items[p][0]] = [list(r) for r in e]
+    elif k == 'iop':
+        s = W.live[target]
+        if not s.items:
+            pass                                   # a list of arrays: nothing to do, no error
+        f = ARITH[op[2]]
+        cells = {}
+        for ident, v in s.items:                   # `for a in lst: a op= k` with aliasing
+            cur = cells.get(ident, v)
+            cells[ident] = [[f(x, op[3]) for x in r] for r in cur]
+        written = cells
+    elif k == 'op':
+        s = W.live[target]
+        f = ARITH[op[2]]
+        W.live.append(Ref(W.new_items([[[f(x, op[3]) for x in r] for r in v] for v in s.values()]),
+                          W.fresh_grp(), False, s.dt))
+    elif k in ('iops', 'ops'):
+        s, v = W.live[target], W.live[op[2]]
+        f = ARITH2[op[3]]
+        if len(s.items) != len(v.items) or sum(len(a) for a in s.values()) != sum(len(a) for a in v.values()):
+            expect_status = 'ERR:ValueError'        # _check_shape (zip of unequal lists in list terms)
+        elif any(len(a) != len(b) for a, b in zip(s.values(), v.values())):
+            raise Invalid()
+        elif k == 'ops':
+            W.live.append(Ref(W.new_items([[[f(x, y) for x, y in zip(ra, rb)] for ra, rb in zip(a, b)]
+                                           for a, b in zip(s.values(), v.values())]),
+                              W.fresh_grp(), False, s.dt))
+        else:
+            rel = 'same' if v is s else W.relation(s.grp, v.grp)
+            if rel == 'maybe':
+                raise Invalid()                     # cannot tell whether the operands alias
+            cells = {}
+            for (ident, val), (vid, vval) in zip(s.items, v.items):   # `for a, b in zip(S, V): a op= b`
+                cur = cells.get(ident, val)
+                rhs = cells[vid] if rel == 'same' and vid in cells else vval
+                cells[ident] = [[f(x, y) for x, y in zip(ra, rb)] for ra, rb in zip(cur, rhs)]
+            written = cells
+    elif k == 'un':
+        s = W.live[target]
+        g = (lambda x: -x) if op[2] == 0 else abs
+        W.live.append(Ref(W.new_items([[[g(x) for x in r] for r in a] for a in s.values()]),
+                          W.fresh_grp(), False, s.dt))
+    elif k == 'cat':
+        if not op[1]:
+            raise Invalid()
+        vals = [v for t in op[1] for v in W.live[t].values()]
+        W.live.append(Ref(W.new_items(vals), W.fresh_grp(), False, W.live[op[1][0]].dt))
+    else:
+        raise Invalid()
+
+    return expect_status, written, target, ([] if target is None else [target])
+
+
+def ref_seq_from(W, src, aslist):
+    """`ArraySequence(value)`: a view of an ArraySequence; a new sequence filled from a list of arrays"""
+    s = W.live[src]
+    if aslist:
+        return Ref(W.new_items(s.values()), W.fresh_grp(), False, s.dt)
+    return Ref([[i, [list(r) for r in v]] for i, v in s.items], s.grp, True, s.dt)
+
+
+def ref_rows(r):
+    return sum(len(v) for v in r.values())
+
+
+def ref_dpp_check(n_rows, r):
+    return not (0 < n_rows != ref_rows(r))
+
+
+def ref_tract_step(W, op, w):
+    """Tractogram operations in list terms: a tractogram is a list of arrays (streamlines) plus one list of
+    arrays per key; `Tractogram(seq)`, `T[idx]` and a per-point sequence taken over from another tractogram
+    are views (linked until they grow); extend is list extend on the streamlines and on every key."""
+    k = op[0]
+    n = len(W.live)
+    if k == 'tnew':
+        if (op[1] is not None and not 0 <= op[1] < n) or any(not 0 <= f < n for _, f in op[2]) or \
+                len({a for a, _ in op[2]}) != len(op[2]):
+            raise Invalid()
+        new = [Ref([], W.fresh_grp(), False, None) if op[1] is None else ref_seq_from(W, op[1], op[3])]
+        rows = ref_rows(new[0])
+        dpp = {}
+        for a, f in op[2]:
+            r = ref_seq_from(W, f, op[3])
+            if not ref_dpp_check(rows, r):
+                return 'ERR:ValueError', None, None, []
+            dpp[a] = n + len(new)
+            new.append(r)
+        W.live.extend(new)
+        W.tracts.append({'sl': n, 'dpp': dpp, 'n': rows})
+        return 'ok', None, None, []
+    if not 0 <= op[1] < len(W.tracts):
+        raise Invalid()
+    T = W.tracts[op[1]]
+    if k in ('tsl', 'tidx'):
+        sel = (['sl', 0] + op[2:5]) if k == 'tsl' else ['idx', 0, op[2]]
+        new = []
+        for src in [T['sl']] + list(T['dpp'].values()):
+            s = W.live[src]
+            pos = ref_positions(len(s.items), sel)
+            if isinstance(pos, str):
+                return pos, None, None, []
+            new.append(Ref([[s.items[p][0], [list(r) for r in s.items[p][1]]] for p in pos], s.grp, True, s.dt))
+        rows = ref_rows(new[0])
+        if any(not ref_dpp_check(rows, r) for r in new[1:]):
+            return 'ERR:ValueError', None, None, []
+        W.live.extend(new)
+        W.tracts.append({'sl': n, 'dpp': {a: n + 1 + i for i, a in enumerate(T['dpp'])}, 'n': rows})
+        return 'ok', None, None, []
+    if k == 'text':
+        if not 0 <= op[2] < len(W.tracts):
+            raise Invalid()
+        U = W.tracts[op[2]]
+        grown = [T['sl']]
+
+        def extend(t, u):
+            src = W.live[u]
+            items = W.new_items(src.values())
+            W.live[t].items += items
+            W.grown(t, (items, None, src.dt) if items else None, len(src.items) > 0)
+
+        extend(T['sl'], U['sl'])
+        if T['dpp'] and U['dpp'] and sorted(T['dpp']) != sorted(U['dpp']):
+            return 'ERR:ValueError', None, None, grown
+        T['n'] += U['n'] if U is not T else T['n']
+        for a, f in list(U['dpp'].items()):
+            if a not in T['dpp']:
+                r = ref_seq_from(W, f, False)
+                if not ref_dpp_check(T['n'], r):
+                    return 'ERR:ValueError', None, None, grown
+                T['dpp'][a] = len(W.live)
+                W.live.append(r)
+            else:
+                extend(T['dpp'][a], f)
+                grown.append(T['dpp'][a])
+        return 'ok', None, None, grown
+    if k == 'tset':
+        if not 0 <= op[3] < n:
+            raise Invalid()
+        r = ref_seq_from(W, op[3], op[4])
+        if not ref_dpp_check(T['n'], r):
+            return 'ERR:ValueError', None, None, []
+        T['dpp'][op[2]] = n
+        W.live.append(r)
+        return 'ok', None, None, []
+    raise Invalid()
+
+
 def oracle_hist(d, steps):
     W = RefWorld()
     w = width(d['shape'])
     for n, (op, (status, obs)) in enumerate(zip(d['ops'], steps)):
-        k = op[0]
         where = f'step {n} {op}'
-        for t in ([op[1]] if k not in ('new', 'cat') else op[1] if k == 'cat' else []) + \
-                 ([op[2]] if k in TWO_SEQ else []):
-            if not 0 <= t < len(W.live):
-                raise Invalid()
         before = [[[list(r) for r in v] for v in x.values()] for x in W.live]
-        expect_status = 'ok'
-        written = None
-        target = op[1] if k != 'new' and k != 'cat' else None
-        if k == 'new':
-            W.live.append(Ref([], W.fresh_grp(), False, None))
-        elif k in ('app', 'appc'):
-            if any(len(r) != w for r in op[3]):
-                raise Invalid()
-            items = W.new_items([op[3]])
-            W.live[target].items += items
-            W.grown(target, (items, None, op[2]) if items else None)
-        elif k in ('ext', 'extg'):
-            items = W.new_items(op[3])
-            W.live[target].items += items
-            W.grown(target, (items, None, op[2]) if items else None, k == 'ext' and len(op[3]) > 0)
-        elif k == 'exts':
-            src = W.live[op[2]]
-            items = W.new_items(src.values())
-            W.live[target].items += items
-            W.grown(target, (items, None, src.dt) if items else None, len(src.items) > 0)
-        elif k == 'view':
-            s = W.live[target]
-            W.live.append(Ref([[i, [list(r) for r in v]] for i, v in s.items], s.grp, True, s.dt))
-        elif k == 'copy':
-            s = W.live[target]
-            W.live.append(Ref(W.new_items(s.values()), W.fresh_grp(), False, s.dt))
-        elif k in ('sl', 'idx', 'mask'):
-            s = W.live[target]
-            pos = ref_positions(len(s.items), op)
-            if isinstance(pos, str):
-                expect_status = pos
-            else:
-                W.live.append(Ref([[s.items[p][0], [list(r) for r in s.items[p][1]]] for p in pos],
-                                  s.grp, True, s.dt))
-        elif k == 'get':
-            s = W.live[target]
-            if not -len(s.items) <= op[2] < len(s.items):
-                expect_status = 'ERR:IndexError'
-            else:
-                expect_status = 'get=' + str(s.items[op[2]][1]).replace(' ', '')
-        elif k == 'set':
-            s = W.live[target]
-            if not -len(s.items) <= op[2] < len(s.items):
-                expect_status = 'ERR:IndexError'
-            else:
-                ident, old = s.items[op[2]]
-                if len(old) != len(op[3]) or any(len(r) != w for r in op[3]):
-                    raise Invalid()
-                written = {ident: [list(r) for r in op[3]]}
-        elif k == 'sets':
-            s = W.live[target]
-            pos = ref_positions(len(s.items), ['sl'] + op[1:5])
-            if isinstance(pos, str):
-                expect_status = pos
-            else:
-                if len(pos) != len(op[5]) or any(len(s.items[p][1]) != len(e) for p, e in zip(pos, op[5])):
-                    raise Invalid()
-                written = {}
-                for p, e in zip(pos, op[5]):          # a list: later assignments win
-                    written[s.items[p][0]] = [list(r) for r in e]
-        elif k == 'iop':
-            s = W.live[target]
-            if not s.items:
-                pass                                   # a list of arrays: nothing to do, no error
-            f = ARITH[op[2]]
-            cells = {}
-            for ident, v in s.items:                   # `for a in lst: a op= k` with aliasing
-                cur = cells.get(ident, v)
-                cells[ident] = [[f(x, op[3]) for x in r] for r in cur]
-            written = cells
-        elif k == 'op':
-            s = W.live[target]
-            f = ARITH[op[2]]
-            W.live.append(Ref(W.new_items([[[f(x, op[3]) for x in r] for r in v] for v in s.values()]),
-                              W.fresh_grp(), False, s.dt))
-        elif k in ('iops', 'ops'):
-            s, v = W.live[target], W.live[op[2]]
-            f = ARITH2[op[3]]
-            if len(s.items) != len(v.items) or sum(len(a) for a in s.values()) != sum(len(a) for a in v.values()):
-                expect_status = 'ERR:ValueError'        # _check_shape (zip of unequal lists in list terms)
-            elif any(len(a) != len(b) for a, b in zip(s.values(), v.values())):
-                raise Invalid()
-            elif k == 'ops':
-                W.live.append(Ref(W.new_items([[[f(x, y) for x, y in zip(ra, rb)] for ra, rb in zip(a, b)]
-                                               for a, b in zip(s.values(), v.values())]),
-                                  W.fresh_grp(), False, s.dt))
-            else:
-                rel = 'same' if v is s else W.relation(s.grp, v.grp)
-                if rel == 'maybe':
-                    raise Invalid()                     # cannot tell whether the operands alias
-                cells = {}
-                for (ident, val), (vid, vval) in zip(s.items, v.items):   # `for a, b in zip(S, V): a op= b`
-                    cur = cells.get(ident, val)
-                    rhs = cells[vid] if rel == 'same' and vid in cells else vval
-                    cells[ident] = [[f(x, y) for x, y in zip(ra, rb)] for ra, rb in zip(cur, rhs)]
-                written = cells
-        elif k == 'un':
-            s = W.live[target]
-            g = (lambda x: -x) if op[2] == 0 else abs
-            W.live.append(Ref(W.new_items([[[g(x) for x in r] for r in a] for a in s.values()]),
-                              W.fresh_grp(), False, s.dt))
-        elif k == 'cat':
-            if not op[1]:
-                raise Invalid()
-            vals = [v for t in op[1] for v in W.live[t].values()]
-            W.live.append(Ref(W.new_items(vals), W.fresh_grp(), False, W.live[op[1][0]].dt))
-        else:
-            raise Invalid()
+        expect_status, written, target, grown = ref_step(W, op, w)
 
         # ---- compare with the implementation
         if status != expect_status:
@@ -564,7 +758,7 @@ def oracle_hist(d, steps):
         for i, (r, (cont, dt, ln, tot, byint)) in enumerate(zip(W.live, obs)):
             want = r.values()
             if cont != want:
-                if i == target or i >= len(before):
+                if i == target or i in grown or i >= len(before):
                     return f'{where}: sequence {i} is {cont}, a list of arrays gives {want}'
                 return (f'{where}: sequence {i} (not the one operated on) changed to {cont}, expected {want}')
             if byint != want or ln != len(want) or tot != sum(len(v) for v in want):
@@ -1059,6 +1253,193 @@ def random_history(rng, nsteps):
     return mk_hist(shape, ops, 'random')
 
 
+# ------------------------------------------------------------------ Tractogram histories (model + oracle)
+
+def ref_lens(W, i):
+    return [len(v) for v in W.live[i].values()]
+
+
+def tract_prefix(fr, dt, aslist):
+    """two tractograms a (T0), b (T1) with per-point data under key 0 and an empty accumulator (T2);
+    user-held sequences 0..3, a = sequences 4,5, b = 6,7, acc = 8"""
+    la, lb = [2, 1], [1, 3]
+    return [['new', 0], ['ext', 0, dt, [fr.rows(n) for n in la]],
+            ['new', 0], ['ext', 1, dt, [fr.rows(n) for n in la]],
+            ['new', 0], ['ext', 2, dt, [fr.rows(n) for n in lb]],
+            ['new', 0], ['ext', 3, dt, [fr.rows(n) for n in lb]],
+            ['tnew', 0, [[0, 1]], aslist], ['tnew', 2, [[0, 3]], aslist], ['tnew', None, [], 0]]
+
+
+def tract_alphabet(W, fr, dt):
+    """operations offered at the current state of a tractogram history (None = not applicable)"""
+    T = W.tracts
+    last = len(T) - 1
+
+    def member(t, key=0):
+        return T[t]['dpp'].get(key)
+
+    def on_member(t, f):
+        m = member(t)
+        return None if m is None else f(m)
+
+    return [
+        lambda: ['text', 2, 0],                                    # acc += a
+        lambda: ['text', 2, 1],                                    # acc += b
+        lambda: ['text', 0, 1],                                    # a += b
+        lambda: ['text', last, 1] if last > 2 else ['text', 1, 1],   # (derived tractogram) += b ; b += b
+        lambda: ['tsl', 0, None, 1, None],                         # a[:1]
+        lambda: ['tsl', 2, 1, None, None] if last <= 3 else ['tidx', last, [0, 0]],
+        lambda: ['tset', 0, 1, 1, 0],                              # a.data_per_point[k1] = user sequence
+        lambda: ['tset', 2, 0, 3, 0],                              # acc.data_per_point[k0] = user sequence
+        lambda: on_member(2, lambda m: ['app', m, dt, fr.rows(1)]) or ['app', T[2]['sl'], dt, fr.rows(1)],
+        lambda: on_member(0, lambda m: ['iop', m, 0, 100]),
+        lambda: on_member(2, lambda m: ['set', m, 0, fr.rows(ref_lens(W, m)[0])] if ref_lens(W, m) else None),
+        lambda: ['tnew', T[0]['sl'], [[0, member(0)]], 0] if member(0) is not None else None,
+    ]
+
+
+def replay_ref(ops, w):
+    W = RefWorld()
+    for op in ops:
+        ref_step(W, op, w)
+    return W
+
+
+def enumerate_tract_histories(shape, dt, depth, out, stream, choices=None):
+    """every path (or the given ones) of `depth` operations of `tract_alphabet` from both start states"""
+    w = width(shape)
+    for aslist in (0, 1):
+        fr0 = Fresh(w)
+        prefix = tract_prefix(fr0, dt, aslist)
+        nalpha = len(tract_alphabet(replay_ref(prefix, w), fr0, dt))
+        paths = choices if choices is not None else itertools.product(range(nalpha), repeat=depth)
+        for path in paths:
+            fr = Fresh(w, fr0.v)
+            W = replay_ref(prefix, w)
+            ops = list(prefix)
+            for c in path:
+                op = tract_alphabet(W, fr, dt)[c % nalpha]()
+                if op is None:
+                    continue
+                try:
+                    ref_step(W, op, w)
+                except Invalid:
+                    continue
+                ops.append(op)
+            out.append(mk_hist(shape, ops, stream))
+
+
+def random_tract_history(rng, nsteps):
+    shape = rng.choice(SHAPES)
+    w = width(shape)
+    dt0 = rng.choice([0, 1, 2, 4])
+    fr = Fresh(w)
+    W = RefWorld()
+    ops = []
+
+    def add(op):
+        try:
+            ref_step(W, op, w)
+        except Invalid:
+            return False
+        ops.append(op)
+        return True
+
+    def buf():
+        return rng.choice([0, 0, 0, 8 * w, 24 * w, 100])
+
+    for _ in range(rng.choice([1, 2, 2, 3])):            # groups of user-held sequences with equal element lengths
+        lens = [rng.choice([1, 1, 2, 3]) for _ in range(rng.randrange(0, 4))]
+        for _ in range(rng.choice([2, 2, 3])):
+            i = len(W.live)
+            add(['new', buf()])
+            if rng.random() < 0.5:
+                add(['ext', i, dt0, [fr.rows(n) for n in lens]])
+            else:
+                for n in lens:
+                    add(['app', i, dt0, fr.rows(n)])
+    tries = 0
+    while len(ops) < nsteps and tries < 8 * nsteps:
+        tries += 1
+        n, nt = len(W.live), len(W.tracts)
+        r = rng.random()
+        room = n < 16
+        if r < 0.16 and room and nt < 6:
+            src = None if rng.random() < 0.3 else rng.randrange(n)
+            want = ref_lens(W, src) if src is not None else None
+            cand = [u for u in range(n) if want is None or ref_lens(W, u) == want]
+            if rng.random() < 0.1:
+                cand = list(range(n))
+            keys = rng.sample([0, 1, 2], rng.choice([0, 1, 1, 2]))
+            add(['tnew', src, [[a, rng.choice(cand)] for a in keys], int(rng.random() < 0.3)])
+        elif r < 0.30 and room and nt and nt < 7:
+            T = rng.randrange(nt)
+            m = len(W.live[W.tracts[T]['sl']].items)
+            if rng.random() < 0.6:
+                b = [None] + list(range(-m - 1, m + 2))
+                add(['tsl', T, rng.choice(b), rng.choice(b), rng.choice([None, None, 1, 2, -1, -2])])
+            elif m:
+                add(['tidx', T, [rng.randrange(-m, m + (rng.random() < 0.08)) for _ in range(rng.randrange(0, m + 2))]])
+        elif r < 0.55 and nt:
+            T = rng.randrange(nt)
+            U = rng.randrange(nt)
+            if sum(len(x.items) for x in W.live) < 300:
+                add(['text', T, U])
+        elif r < 0.65 and nt and room:
+            T = rng.randrange(nt)
+            rows = W.tracts[T]['n']
+            cand = [u for u in range(n) if ref_rows(W.live[u]) == rows] if rng.random() < 0.85 else list(range(n))
+            if cand:
+                add(['tset', T, rng.choice([0, 0, 1, 2]), rng.choice(cand), int(rng.random() < 0.3)])
+        else:
+            members = [x for T in W.tracts for x in [T['sl']] + list(T['dpp'].values())]
+            t = rng.choice(members) if members and rng.random() < 0.7 else rng.randrange(n)
+            lens = ref_lens(W, t)
+            m = len(lens)
+            q = rng.random()
+            if q < 0.25:
+                add(['app', t, dt0, fr.rows(rng.choice([0, 1, 2]))])
+            elif q < 0.40:
+                add([rng.choice(['ext', 'extg']), t, dt0, [fr.rows(rng.choice([0, 1, 2])) for _ in range(rng.randrange(0, 3))]])
+            elif q < 0.50:
+                u = rng.randrange(n)
+                if sum(len(x.items) for x in W.live) < 300:
+                    add(['exts', t, u])
+            elif q < 0.62 and m:
+                add(['iop', t, rng.choice([0, 2]), rng.choice([1, 7, -3])])
+            elif q < 0.74 and m:
+                i = rng.randrange(-m, m)
+                add(['set', t, i, fr.rows(lens[i])])
+            elif q < 0.84 and room:
+                b = [None] + list(range(-m - 1, m + 2))
+                add(['sl', t, rng.choice(b), rng.choice(b), rng.choice([None, 1, -1, 2])])
+            elif q < 0.90 and room:
+                add(['copy', t])
+            elif q < 0.95 and room:
+                add(['view', t, buf()])
+            else:
+                add(['get', t, rng.randrange(-m - 1, m + 1)])
+    return mk_hist(shape, ops, 'tract-random')
+
+
+def fancy_full_cases(out):
+    """views made with REPEATED indices whose selected rows add up to exactly the rows of the parent's
+    buffer (so `is_sliced_view` is False for them), then written through / grown"""
+    for shape, dt in (((2,), 1), ((), 4)):
+        w = width(shape)
+        for lens, idx in (([2, 1, 3], [0, 0, 0]), ([2, 1, 3], [2, 2]), ([2, 1, 3], [1, 1, 0, 0]),
+                          ([1, 1], [1, 1]), ([2, 2], [0, 0]), ([3, 1, 2], [2, 1, 0])):
+            for tail in range(7):
+                fr = Fresh(w)
+                ops = [['new', 0], ['ext', 0, dt, [fr.rows(n) for n in lens]], ['idx', 0, idx]]
+                sel = [lens[i] for i in idx]
+                ops += [[['iop', 1, 0, 100]], [['iop', 1, 1, 2]], [['op', 1, 0, 5]],
+                        [['set', 1, 0, fr.rows(sel[0])]], [['app', 1, dt, fr.rows(2)], ['iop', 1, 0, 100]],
+                        [['copy', 1], ['iops', 1, 2, 0]], [['sl', 1, None, None, -1], ['iop', 2, 2, 7]]][tail]
+                ops.append(['get', 0, -1])
+                out.append(mk_hist(shape, ops, 'fancy-full'))
+
+
 def tract_cases():
     out = []
     for n in (2, 4, 5):
@@ -1111,4 +1492,16 @@ def cases(rng, tier):
     for _ in range(nrand):
         out.append(random_history(rng, rng.choice([6, 10, 16, 25, 25])))
     out.extend(tract_cases())
+    # ---- Tractogram histories (model + oracle): exhaustive short ones, random longer ones
+    if tier == 'thorough':
+        enumerate_tract_histories((3,), 4, 3, out, 'tract-exh-d3')
+        enumerate_tract_histories((), 1, 4, out, 'tract-sample-d4',
+                                  [[rng.randrange(12) for _ in range(4)] for _ in range(6000)])
+    else:
+        enumerate_tract_histories((3,), 4, 2, out, 'tract-exh-d2')
+        enumerate_tract_histories((), 1, 3, out, 'tract-sample-d3',
+                                  [[rng.randrange(12) for _ in range(3)] for _ in range(500)])
+    for _ in range({'quick': 700, 'thorough': 8000, 'search': 1500}[tier]):
+        out.append(random_tract_history(rng, rng.choice([6, 10, 14, 20])))
+    fancy_full_cases(out)
     return out
